@@ -395,11 +395,12 @@ class SpaceImpl:
         groups.sort(key=lambda g: (g[0], g[1]))
         return groups
 
-    def draw(self, component=False, default=False):
+    def draw(self, component=False, default=False, kw=None):
         m = L()
         snap = self.snapshot()
         if default:
             snap = [(v, loc, {}) for v, loc, _ in snap]  # the component's own portrayal: {}
+        kwargs = {k: to_py(k, v) for k, v in (kw or {}).items()}
         ax = m["Figure"]().add_subplot()
         with warnings.catch_warnings():
             warnings.simplefilter("ignore")
@@ -411,12 +412,15 @@ class SpaceImpl:
                     m["solara"].render(comp(self.model), handle_error=False)
                     ax = got[0]
                 else:
-                    m["draw_space"](self.space, self.portrayal, ax=ax)
+                    m["draw_space"](self.space, self.portrayal, ax=ax, **kwargs)
             except Exception as e:
-                self.trace.append(("draw", snap, None, exc_tok(e) + ": " + str(e)[:80], self.heap_before, self.heap_now()))
-                return exc_tok(e)
+                tok = exc_tok(e)
+                if kw and isinstance(e, ValueError) and "is specified in agent portrayal and via plotting kwargs" in str(e):
+                    tok = "err Value conflict " + str(e).split()[0]
+                self.trace.append(("draw", snap, None, tok + ": " + str(e)[:80], kw, self.heap_before, self.heap_now()))
+                return tok
             groups = self.read_axes(ax)
-        self.trace.append(("draw", snap, groups, None, self.heap_before, self.heap_now()))
+        self.trace.append(("draw", snap, groups, None, kw, self.heap_before, self.heap_now()))
         return "ok" + "".join(
             f" | {mk} {z} n={len(mem)}" + "".join(" " + ",".join(t) for t in mem) for mk, z, mem in groups)
 
@@ -677,6 +681,8 @@ class SpaceImpl:
             return self.draw()
         if k == "drawc":
             return self.draw(component=True)
+        if k == "drawk":
+            return self.draw(kw=dict(t.split("=") for t in w[1:]))
         if k == "altair":
             return self.altair()
         if k == "altairc":
@@ -1023,8 +1029,11 @@ def gen_space(R, tier):
         if k < 0.36:
             return (f"collectd {R.choice(FACE_COLORS + FACE_TUPLES[:1])} {R.choice(SIZES)} {R.choice(MARKERS)} "
                     f"{R.choice(ZORDERS)}")
-        if k < 0.72:
+        if k < 0.69:
             return "draw"
+        if k < 0.72:
+            kws = R.sample([("alpha", ALPHAS), ("edgecolors", EDGE_COLORS), ("linewidths", LINEWIDTHS)], R.choice([1, 1, 2]))
+            return "drawk " + " ".join(f"{key}={R.choice(vals)}" for key, vals in kws)
         if k < 0.74:
             return "drawc"  # through the solara component (renders a PNG: slow, so rare)
         if k < 0.88:
@@ -1223,6 +1232,11 @@ def gen_params(R, tier):
             keys = gen_keys(R, params)
             k = R.random()
             if k < 0.12:
+                if R.random() < 0.7:
+                    # the names a call by keyword needs (and some it may take): mostly accepted, so that inputs get changed
+                    rest = params[1:] if params and params[0][1] in ("po", "pk") else params
+                    keys = [n for n, kd, d in rest if kd in ("pk", "ko") and (d == "n" or R.random() < 0.4)]
+                    R.shuffle(keys)
                 lines.extend(gen_inputs(R, keys))
             elif k < 0.8:
                 lines.append(" ".join(["check", *keys]))
@@ -1337,7 +1351,18 @@ def oracle(sc, obs):
                 if sorted(e + (v,) for e, v in zip(entries, opt[key])) != wk:
                     bad.append(f"collect-optional: {key} {opt[key]} along entries {entries} but the agents demand {wk}")
         elif kind == "draw":
-            _, snap, groups, err, _hb, _ha = ev
+            _, snap, groups, err, kw, _hb, _ha = ev
+            # plotting keyword arguments reach the scatter calls of grids and networks only; there, a keyword that some
+            # agent's portrayal specifies too is refused (documented), otherwise it applies to every marker
+            kw = kw if kw and fam not in ("cs", "xcs", "vor") else {}
+            clash = [k for k in ("edgecolors", "linewidths", "alpha") if k in kw and any(k in d for _, _, d in snap)]
+            if err is not None and clash and err.startswith(f"err Value conflict {clash[0]}"):
+                continue
+            if err is None and clash:
+                bad.append(f"draw-kwargs-clash: {clash[0]} given by a portrayal and as a plotting keyword, and drawn all the same")
+                continue
+            if kw:
+                snap = [(v, loc, {**d, **{k: to_py(k, t) for k, t in kw.items()}}) for v, loc, d in snap]
             if err is not None:
                 key = partial_optional(snap)
                 if key and err.startswith("err Index"):
